@@ -75,7 +75,9 @@ HTML_FRAGMENTS = [
     "&lt;escaped&gt;", "&unknown; entity", "<?pi x?>", "<![CDATA[c]]>", "<html><body><p>full doc</p></body></html>",
     "<body>only body</body>", "<head><title>t</title></head>x", "é ü 漢字 \U0001F600", "<p> </p>", "<o:p>office</o:p>",
     "<p style=\"color:red\">styled</p>", "<a href=\"hlink://0001\">link</a>", "<>", "< p>space tag</ p>", "a<b", "<p/>self",
-    "<input disabled>", "<td>cell outside table</td>", "<li>item outside list", "\x0b", "<p>\x0c</p>",
+    "Research & Development", "AT&T", "non&nbsp;breaking", "&nbsp;", "&copy; 2024 &mdash; x", "a && b", "1 > 0", "0 < 1", "x <= y && y >= z",
+    "\"quoted\" 'single'", "&amp;amp;", "&#65;&#x42;", "&#", "&#x", "&;", "&amp", "R&D; Q&A", "]]>", "a&b=c&d", "&lt;b&gt;not a tag&lt;/b&gt;",
+    "<!-- a -- b -->", "x<!--<!--y", "<input disabled>", "<td>cell outside table</td>", "<li>item outside list", "\x0b", "<p>\x0c</p>",
 ]
 
 
@@ -214,9 +216,47 @@ def rand_html(rng) -> str:
     return "".join(out)
 
 
+PLAIN_PARTS = ["Research & Development", "AT&T", "a&nbsp;b", "&amp;", "&lt;", "&gt;", "&quot;", "&apos;", "&#65;", "&#x41;", "&eacute;", "&bogus;", "&", "&&",
+               ";", "&amp", "&#", "&#x", "1 > 0", "\"q\"", "'s'", "é", "x", "  ", " & ", "R&D;", "&copy;2024", "&nbsp;", "&#1114112;", "a < b", "<", ">",
+               "<<", "]]>", "\n", "\t"]
+
+
+def rand_plain(rng) -> str:
+    """tag-less text (mostly) with markup-significant characters, entities and broken references"""
+    return "".join(rng.choice(PLAIN_PARTS) for _ in range(rng.randint(1, 4)))
+
+
+WF_CLASSES = {
+    "NS_ERR_UNDEFINED_NAMESPACE": "unbound-prefix",
+    "ERR_HYPHEN_IN_COMMENT": "comment", "ERR_COMMENT_NOT_FINISHED": "comment",
+    "ERR_NAME_REQUIRED": "tag-soup", "ERR_ATTRIBUTE_WITHOUT_VALUE": "tag-soup", "ERR_GT_REQUIRED": "tag-soup", "ERR_SPACE_REQUIRED": "tag-soup",
+    "ERR_LT_IN_ATTRIBUTE": "tag-soup", "ERR_TAG_NAME_MISMATCH": "tag-soup", "ERR_ATTRIBUTE_REDEFINED": "tag-soup", "NS_ERR_QNAME": "tag-soup",
+    "ERR_TAG_NOT_FINISHED": "tag-soup", "ERR_LTSLASH_REQUIRED": "tag-soup", "ERR_ATTRIBUTE_NOT_STARTED": "tag-soup", "NS_ERR_COLON": "tag-soup",
+    "ERR_INVALID_CHAR": "illegal-char",
+}
+
+
+def not_wellformed(fragment: str) -> list[str]:
+    """Independent well-formedness oracle: parse the fragment as XML content of a root element with libxml2's strict
+    XML parser (no recovery, no DTD: only the five XML entities and character references are legal). Returns the
+    class of the first reported error ([] = well-formed)."""
+    from lxml import etree
+
+    parser = etree.XMLParser(resolve_entities=False, recover=False, huge_tree=True)
+    try:
+        etree.fromstring("<r>" + fragment + "</r>", parser)
+        return []
+    except etree.XMLSyntaxError:
+        # the first error in document order is the cause; what libxml2 reports after it (e.g. an entity inside a bogus
+        # tag name) is a consequence
+        n = parser.error_log[0].type_name if len(parser.error_log) else "unknown"
+        return [WF_CLASSES.get(n, "entity" if ("ENTITY" in n or "CHARREF" in n) else n)]
+
+
 def html_values(ctx: Ctx) -> list[tuple[str, object]]:
     vals = [("fragment", s) for s in HTML_FRAGMENTS]
     vals += [("random-soup", rand_html(ctx.rng)) for _ in range(ctx.pick(40, 600))]
+    vals += [("random-plain", rand_plain(ctx.rng)) for _ in range(ctx.pick(40, 600))]
     vals += [("illegal", "\x00"), ("illegal", "a￾b"), ("wrongtype", 5)]
     return vals
 
@@ -587,6 +627,13 @@ def run(ctx: Ctx) -> Outcome:
                                  f"{dict(now)[attr]!r} in the XML", replay)
                 else:
                     stats["stored"] += 1
+                if kind == "html" and after[0] == "ok" and isinstance(v, str) and xml_legal(v):
+                    for where, frag in (("stored", dict(now).get(attr)), ("read back", after[1])):
+                        if isinstance(frag, str):
+                            laws["html_wellformed"] = laws.get("html_wellformed", 0) + 1
+                            for wcls in not_wellformed(str(frag)):
+                                out.find(f"repair_html|not-wellformed|{wcls}", f"{r['cls']}.{name} = {v!r}: the {where} value {str(frag)!r} is not "
+                                         "well-formed XML content", {"kind": "wellformed", "value": str(v)})
                 if kind == "html" and isinstance(after[1], str) and after[0] == "ok" and isinstance(v, str) and xml_legal(v):
                     laws["repair_idem"] += 1
                     again = repair(after[1])
@@ -793,7 +840,8 @@ def run(ctx: Ctx) -> Outcome:
         out.case(("xmlchar", cp), nontrivial=False)
 
     # ---- (3) HTML repair: idempotence sampled on the implementation
-    frags = [s for _, s in pools["html"] if isinstance(s, str)] + [rand_html(rng) for _ in range(ctx.pick(300, 5000))]
+    frags = ([s for _, s in pools["html"] if isinstance(s, str)] + [rand_html(rng) for _ in range(ctx.pick(300, 5000))]
+             + [rand_plain(rng) for _ in range(ctx.pick(300, 5000))])
     nrep = 0
     for s in frags:
         if not xml_legal(s):  # outside the value domain (the attribute could not hold it either)
@@ -803,6 +851,10 @@ def run(ctx: Ctx) -> Outcome:
         if r1 is None:
             continue
         nrep += 1
+        if xml_legal(r1):  # otherwise the attribute cannot hold it and the assignment is refused
+            laws["html_wellformed"] = laws.get("html_wellformed", 0) + 1
+            for wcls in not_wellformed(r1):
+                out.find(f"repair_html|not-wellformed|{wcls}", f"repair_html({s!r}) = {r1!r} is not well-formed XML content", {"kind": "wellformed", "value": s})
         r2 = repair(r1)
         laws["repair_idem"] += 1
         if r2 != r1:
@@ -1098,6 +1150,10 @@ def live_part(ctx, out, capellambse, helpers, pvmt_config, xml_legal, monitor_ex
                 cls = "ws" if isinstance(v, str) and any(c in v for c in "\t\n\r") else label
                 out.find(f"pod.reload|value-differs-after-save-reload|{kind}:{cls}", f"{type(o2).__name__}.{name} = {v!r}: XML before save {xml!r}, after reload {xml2!r}, "
                          f"value {got!r}", {"kind": "live-reload", "pyname": name, "value": repr(v)[:200]})
+            if kind == "html" and isinstance(got, str):
+                for wcls in not_wellformed(str(got)):
+                    out.find(f"repair_html|not-wellformed|{wcls}", f"{type(o2).__name__}.{name} = {v!r}: the value after save and reload {str(got)!r} is not "
+                             "well-formed XML content", {"kind": "wellformed", "value": str(v)})
             out.traces_validated += 1
             out.hit(f"reload.{kind}")
         shutil.rmtree(dst, ignore_errors=True)
@@ -1160,6 +1216,10 @@ def replay(ctx: Ctx, case: dict):
             if is_default and desc.attribute in o._element.attrib:
                 return f"default {v!r} not elided: {o._element.get(desc.attribute)!r}"
         return None
+    if k == "wellformed":
+        r1 = str(helpers.repair_html(case["value"]))
+        bad = not_wellformed(r1)
+        return f"repair_html({case['value']!r}) = {r1!r} is not well-formed XML content ({', '.join(bad)})" if bad else None
     if k == "repair":
         r1 = helpers.repair_html(case["value"])
         r2 = helpers.repair_html(r1)
